@@ -253,8 +253,10 @@ pub fn judge(prop: &str, cases_path: &str, events_path: &str) -> Leg {
             }
             continue;
         }
-        // erbium appends its own OPT record last, so it is the first thing truncation removes
-        let truncated = got.len() < want.len() || cm.opt.is_none();
+        // The server's own OPT record is not one of the upstream's records: a reply may carry none at all (a client that sent
+        // no EDNS), and it may be the first thing truncation removes (then TC is set although every record is there).
+        let records_missing = got.len() < want.len();
+        let truncated = records_missing || (cm.opt.is_none() && cm.tc());
         if prop == "C04" {
             leg.class(format!("{}|adv{:?}|up{}|trunc{}", transport, adv, size_class(ub.len()), truncated));
             if resp.len() > limit {
